@@ -581,45 +581,176 @@ class Piece:
                         raise Undecided("`continue` outside a loop")
                     if toks[own[0]].text in ("loop", "while"):
                         continue   # the installed Verus takes `continue` in `loop` and `while` as it is
-                    if not (toks[k + 1].text == ";" and toks[k + 2].text == "}" and toks[k - 1].text == "{"):
-                        raise Undecided("`continue` outside the supported shape")
-                    # find the `if` that owns this block
-                    j = k - 2
-                    depth = 0
-                    while j > 0 and not (toks[j].text == "if" and depth == 0):
-                        if toks[j].text in (")", "]", "}"):
-                            depth += 1
-                        elif toks[j].text in ("(", "[", "{"):
-                            depth -= 1
-                        if toks[j].text in (";",) and depth == 0:
-                            raise Undecided("`continue` outside the supported shape")
-                        j -= 1
-                    if toks[j].text != "if":
-                        raise Undecided("`continue` outside the supported shape")
-                    # enclosing block: scan forward from the if's closing brace to the brace that closes the body
-                    close_if = k + 2
-                    i = close_if + 1
-                    depth = 0
-                    while i < n:
-                        if toks[i].text in OPEN:
-                            i = match_close(toks, i) + 1
-                            continue
-                        if toks[i].text == "}":
-                            break
-                        i += 1
-                    if i != match_close(toks, own[1]):
-                        # the `if` is not a statement of the loop body itself: what follows it in its block is not all a round skips
-                        raise Undecided("`continue` of a `for` loop inside a nested block (the installed Verus takes no `continue` in `for` loops)")
-                    rest = text[toks[close_if].end:toks[i].start]
-                    new = text[:toks[k - 1].start] + "{ } else {" + rest + "}\n" + text[toks[i].start:]
+                    new = self._continue_in_for(text, toks, k, own)
                     self.rewrites_log.append({"rule": "T-CTRL", "file": self.relpath, "item": self.spec,
-                                              "from": "if C { continue; } REST", "to": "if C { } else { REST }"})
+                                              "from": "S(.. continue ..); REST  (S an if / match statement of a `for` body)",
+                                              "to": "S with REST moved to the end of its one branch that falls through"})
                     text = new
                     done = False
                     break
             if done:
                 return text
         raise Undecided("control-flow desugaring did not terminate")
+
+    def _continue_in_for(self, text, toks, k, own):
+        """T-CTRL for `continue` in a `for` loop (the installed Verus refuses it there).  The `continue` must end a branch of an
+        `if` / `match` statement S that is a statement of the loop body itself.  When exactly one branch of S falls through (the
+        others end in continue / return / break), `S; REST` is the same as S with REST appended to that branch and the
+        `continue`s dropped - REST is moved, never duplicated.  Anything else is refused (undecided)."""
+        n = len(toks)
+        bo = own[1]
+        bc = match_close(toks, bo)
+        DIV = ("continue", "return", "break")
+        # the statement of the loop body that contains the `continue`
+        i = bo + 1
+        S = None
+        while i < bc:
+            s0 = i
+            first = toks[i].text
+            j = i
+            end = None
+            while j < bc:
+                t = toks[j].text
+                if t in OPEN:
+                    jc = match_close(toks, j)
+                    if t == "{" and first in ("if", "match", "for", "while", "loop", "unsafe", "{"):
+                        nxt = toks[jc + 1].text if jc + 1 < bc else ""
+                        if nxt == "else" or nxt in (".", "?"):
+                            j = jc + 1
+                            continue
+                        end = jc + 1 if nxt == ";" else jc
+                        break
+                    j = jc + 1
+                    continue
+                if t == ";":
+                    end = j
+                    break
+                j += 1
+            if end is None:
+                end = bc - 1
+            if s0 <= k <= end:
+                S = (s0, end)
+                break
+            i = end + 1
+        if S is None or toks[S[0]].text not in ("if", "match"):
+            raise Undecided("`continue` of a `for` loop outside an `if` / `match` statement of the loop body (the installed Verus takes no `continue` in `for` loops)")
+        s0, s1 = S
+        branches = []   # (kind, a, b): kind "block" -> tokens a..b are `{`..`}` ; kind "expr" -> arm expression a..b (no braces)
+        implicit_else = False
+        if toks[s0].text == "if":
+            j = s0
+            while True:
+                # condition up to the branch block
+                m = j + 1
+                while toks[m].text != "{":
+                    if toks[m].text in ("(", "["):
+                        m = match_close(toks, m)
+                    m += 1
+                mc = match_close(toks, m)
+                branches.append(("block", m, mc))
+                if mc + 1 <= s1 and toks[mc + 1].text == "else":
+                    if toks[mc + 2].text == "if":
+                        j = mc + 2
+                        continue
+                    m2 = mc + 2
+                    branches.append(("block", m2, match_close(toks, m2)))
+                else:
+                    implicit_else = True
+                break
+        else:
+            m = s0 + 1
+            while toks[m].text != "{":
+                if toks[m].text in ("(", "["):
+                    m = match_close(toks, m)
+                m += 1
+            mo, mc = m, match_close(toks, m)
+            j = mo + 1
+            while j < mc:
+                # pattern [if guard] =>
+                while not (toks[j].text == "=" and toks[j + 1].text == ">" and toks[j].end == toks[j + 1].start):
+                    if toks[j].text in OPEN:
+                        j = match_close(toks, j)
+                    j += 1
+                a = j + 2
+                if toks[a].text == "{":
+                    b = match_close(toks, a)
+                    branches.append(("block", a, b))
+                    j = b + 1
+                    if j < mc and toks[j].text == ",":
+                        j += 1
+                else:
+                    b = a
+                    while b < mc and toks[b].text != ",":
+                        if toks[b].text in OPEN:
+                            b = match_close(toks, b)
+                        b += 1
+                    branches.append(("expr", a, b - 1))
+                    j = b + 1 if b < mc else mc
+        def last_stmt_start(a, b):
+            """first token of the last statement / tail expression of block a..b"""
+            j, last = a + 1, a + 1
+            while j < b:
+                if toks[j].text in OPEN:
+                    j = match_close(toks, j) + 1
+                    continue
+                if toks[j].text == ";" and j + 1 < b:
+                    last = j + 1
+                j += 1
+            return last
+        falls, cont_sites = [], []
+        for (kind, a, b) in branches:
+            if kind == "block":
+                if b == a + 1:
+                    falls.append((kind, a, b))
+                    continue
+                ls = last_stmt_start(a, b)
+                if toks[ls].text in DIV or (toks[ls].text == "Err" and False):
+                    if toks[ls].text == "continue":
+                        cont_sites.append(ls)
+                else:
+                    falls.append((kind, a, b))
+            else:
+                if toks[a].text in DIV:
+                    if toks[a].text == "continue":
+                        cont_sites.append(a)
+                else:
+                    falls.append((kind, a, b))
+        if k not in cont_sites:
+            raise Undecided("`continue` of a `for` loop that does not end a branch of its `if` / `match` statement")
+        nfall = len(falls) + (1 if implicit_else else 0)
+        if nfall != 1:
+            raise Undecided(f"`continue` of a `for` loop: {nfall} branches of the statement fall through (the rest of the round can be moved into exactly one)")
+        # no other `continue` may hide deeper in S (it would have to be handled first, and differently)
+        for q in range(s0, s1 + 1):
+            if toks[q].text == "continue" and toks[q].kind == "ident" and q not in cont_sites:
+                raise Undecided("`continue` of a `for` loop nested deeper in the same statement")
+        rest = text[toks[s1].end:toks[bc].start]
+        edits = [(toks[s1].end, toks[bc].start, "\n")]
+        for q in cont_sites:
+            e_ = toks[q].end
+            if toks[q + 1].text == ";":
+                e_ = toks[q + 1].end
+            edits.append((toks[q].start, e_, "{}" if toks[q - 1].text == ">" or toks[q - 1].text == "," else ""))
+        if implicit_else:
+            edits.append((toks[s1].end, toks[s1].end, "")) if False else None
+            last_block_close = branches[-1][2]
+            edits.append((toks[last_block_close].end, toks[last_block_close].end, " else {" + rest + "}"))
+        else:
+            kind, a, b = falls[0]
+            if kind == "block":
+                ls_ = text[toks[a].end:toks[b].start].rstrip()
+                sep = "" if (b == a + 1 or ls_.endswith(";") or ls_.endswith("}")) else ";"
+                edits.append((toks[b].start, toks[b].start, sep + rest))
+            else:
+                edits.append((toks[a].start, toks[a].start, "{ "))
+                edits.append((toks[b].end, toks[b].end, ";" + rest + "}"))
+        out, pos = "", 0
+        for (a_, b_, r_) in sorted([e for e in edits if e], key=lambda e: (e[0], e[1])):
+            if a_ < pos:
+                raise Undecided("`continue` of a `for` loop: overlapping rewrites")
+            out += text[pos:a_] + r_
+            pos = b_
+        return out + text[pos:]
 
     def _dummy(self):
         pass
@@ -726,6 +857,72 @@ class Piece:
         for k in range(kb, k1):
             if toks[k].text == "_" and toks[k - 1].text == "|" and toks[k + 1].text == "|":
                 self._add(toks[k].start, toks[k].end, "_unused", "T-CLOSURE")
+        # T-CLOSURE: a closure parameter that is a pattern (`|(a, b)| BODY`, `|acc, &(n, d)| BODY`) becomes a plain parameter bound by a
+        # `let` with the very same pattern at the head of the body (the installed Verus takes only variables as closure parameters)
+        k = kb
+        while k < k1:
+            if toks[k].text == "|" and toks[k - 1].text in ("(", ",", "=", "{", ";", "move", "return", "=>") or (toks[k].text == "|" and toks[k - 1].text == "move"):
+                # parameter list up to the closing `|`
+                j = k + 1
+                params, cur0 = [], j
+                ok_ = True
+                while j < k1 and toks[j].text != "|":
+                    if toks[j].text in OPEN:
+                        j = match_close(toks, j)
+                    elif toks[j].text == ",":
+                        params.append((cur0, j))
+                        cur0 = j + 1
+                    elif toks[j].text in (";", "{", "}"):
+                        ok_ = False
+                        break
+                    j += 1
+                if ok_ and j < k1 and j > k + 1:
+                    params.append((cur0, j))
+                    pats = [(a_, b_) for (a_, b_) in params if a_ < b_ and (toks[a_].text == "(" or (toks[a_].text == "&" and toks[a_ + 1].text == "("))]
+                    if pats and toks[j + 1].text != "-":
+                        # body: a block, or an expression up to the `,` / `)` / `;` that ends the closure
+                        bs = j + 1
+                        if toks[bs].text == "{":
+                            be = match_close(toks, bs)
+                            lets = []
+                            for n_, (a_, b_) in enumerate(pats):
+                                # the pattern ends before an optional `: TYPE`
+                                e_ = match_close(toks, a_ if toks[a_].text == "(" else a_ + 1)
+                                pat_txt = self.sf.text[toks[a_].start:toks[e_].end]
+                                self._add(toks[a_].start, toks[e_].end, f"p__{k}_{n_}", "T-CLOSURE", order=-99)
+                                lets.append(f"let {pat_txt} = p__{k}_{n_};")
+                            self._add(toks[bs].end, toks[bs].end, " " + " ".join(lets) + " ", "T-CLOSURE", order=-99)
+                        else:
+                            e2 = bs
+                            while e2 < k1 and toks[e2].text not in (",", ")", ";", "]", "}"):
+                                if toks[e2].text in OPEN:
+                                    e2 = match_close(toks, e2)
+                                e2 += 1
+                            lets = []
+                            for n_, (a_, b_) in enumerate(pats):
+                                e_ = match_close(toks, a_ if toks[a_].text == "(" else a_ + 1)
+                                pat_txt = self.sf.text[toks[a_].start:toks[e_].end]
+                                self._add(toks[a_].start, toks[e_].end, f"p__{k}_{n_}", "T-CLOSURE", order=-99)
+                                lets.append(f"let {pat_txt} = p__{k}_{n_};")
+                            self._add(toks[bs].start, toks[bs].start, "{ " + " ".join(lets) + " ", "T-CLOSURE", order=-99)
+                            self._add(toks[e2 - 1].end, toks[e2 - 1].end, " }", "T-CLOSURE", order=-99)
+                    k = j
+            k += 1
+        # allocation guard: `with_capacity(N)` / `reserve(N)` / `vec![x; N]` panic ("capacity overflow") or abort (allocation failure)
+        # for a large N, and vstd states no bound for them.  N may be a literal, a constant or the length of something that exists;
+        # any other size is one the contracts do not bound: undecided (never passed silently, never an alarm)
+        for k in range(kb, k1 - 2):
+            if toks[k].kind == "ident" and toks[k].text in ("with_capacity", "reserve", "reserve_exact", "try_reserve") and toks[k + 1].text == "(":
+                c_ = match_close(toks, k + 1)
+                arg = "".join(self.sf.text[toks[k + 2].start:toks[c_].start].split()) if c_ > k + 2 else ""
+                if not (re.fullmatch(r"\d[\d_]*(?:usize|u64|u32)?", arg) or re.fullmatch(r"(?:[A-Za-z_]\w*::)*[A-Z][A-Z0-9_]*", arg)
+                        or re.fullmatch(r"[\w.&*]+\.len\(\)(?:[+*]\d+)?", arg) or arg == ""):
+                    if toks[k].text == "with_capacity" and toks[k - 1].text == ":" and toks[k - 3].text == "Vec" and "stdx" in self.unit.preludes:
+                        # Vec::with_capacity(N): through a helper that states the bound under which no `capacity overflow` can occur
+                        self._add(toks[k - 3].start, toks[k].end, "crate::stdcap::vec_with_capacity", "T-ALLOC", order=-99)
+                        continue
+                    raise Undecided(f"{fn.name}: `{toks[k].text}({arg})`: an allocation sized by a value the contracts do not bound "
+                                    "(a huge size panics with `capacity overflow` or aborts on allocation failure)")
         # T-CFG: the unix build is the one verified (acmed only ships for unix): cfg!(unix) is `true`
         for k in range(kb, k1):
             if toks[k].text == "cfg" and toks[k + 1].text == "!" and toks[k + 2].text == "(" and toks[k + 3].text == "unix" and toks[k + 4].text == ")":
